@@ -521,7 +521,58 @@ def run(chk):
     types4 = fx.file(c04.VALUE)['types']
     n = c04.fold_arms(chk, fx, types4, {k: v for k, v in c04.OPCLASS.items() if k in ('try_add', 'try_sub', 'try_mul')}, r1='C34-eval', r1b='C34-eval', audit=False)
     chk.floor('length-arithmetic arms analysed', n, 25)
+    dict_rule(chk, fx)
     return ('Table agreement between the dependent List signatures (typed HIR of Context::init_builtin_classes, let-bound type expressions resolved) and the run-time list '
             'operations (python ast of _erg_list.py interpreted over symbolic lengths; built-in list methods by a frozen table). Only the length clause of the property '
             '("length-indexed list types", "an index the checker accepts as in range ... is in range at run time") is decided, and only as far as the declarations go: '
             'soundness of substitution / unification / evaluation of these signatures during inference is not decided.'), {'exhaustive': True}
+
+
+def dict_rule(chk, fx):
+    """which value a duplicated key keeps when two dicts are concatenated: the checker's constant folding and the runtime class must agree"""
+    import ast, os
+    from sa import facts as F_
+    DICT = 'crates/erg_common/dict.rs'
+    chk.rule('C34-dict', 'the type the checker computes for a concatenation of two dict constants holds the value the program computes: Dict::merge (the body of Dict::concat, used by the '
+                         'compile-time `concat` / `+` of dict values) and Dict.concat of _erg_dict.py agree on the winner of a duplicated key — `extend` / insert overwrite (the right '
+                         'operand wins, like `{**self, **other}`), `entry(k).or_insert(v)` / guaranteed_extend keep the left value')
+
+    def rust_winner(fname, depth=0):
+        f = [g for g in fx.file(DICT)['fns'] if T.norm(g['path']) == 'Dict::' + fname]
+        if len(f) != 1 or depth > 3:
+            return None
+        for c in T.calls(f[0]['body']):
+            nm = c['n'] if c.get('k') == 'MCall' else T.last_seg(T.callee(c) or '')
+            if nm in ('or_insert', 'or_insert_with', 'or_default'):
+                return 'left'
+        for c in T.calls(f[0]['body']):
+            nm = c['n'] if c.get('k') == 'MCall' else T.last_seg(T.callee(c) or '')
+            recv = T.show(T.peel(c['r'])) if c.get('k') == 'MCall' else ''
+            if nm in ('extend', 'insert') and recv.endswith('dict'):
+                return 'right'
+            if nm in ('merge', 'guaranteed_extend', 'extend', 'concat') and nm != fname and recv in ('self', ''):
+                w = rust_winner(nm, depth + 1)
+                if w:
+                    return w
+        return None
+    rw = rust_winner('concat') or rust_winner('merge')
+    src = open(os.path.join(F_.REPO, 'crates/erg_compiler/lib/core/_erg_dict.py'), encoding='utf-8').read()
+    pw = None
+    for cls in ast.parse(src).body:
+        if isinstance(cls, ast.ClassDef):
+            for fdef in cls.body:
+                if isinstance(fdef, ast.FunctionDef) and fdef.name == 'concat' and len(fdef.args.args) == 2:
+                    me, you = [a.arg for a in fdef.args.args]
+                    for d in ast.walk(fdef):
+                        if isinstance(d, ast.Dict) and len(d.keys) == 2 and all(k is None for k in d.keys) and all(isinstance(v, ast.Name) for v in d.values):
+                            order = [v.id for v in d.values]
+                            pw = 'right' if order == [me, you] else 'left' if order == [you, me] else None
+                        if isinstance(d, ast.BinOp) and isinstance(d.op, ast.BitOr) and isinstance(d.left, ast.Name) and isinstance(d.right, ast.Name):
+                            pw = 'right' if (d.left.id, d.right.id) == (me, you) else 'left'
+    if not chk.need(rw is not None and pw is not None, 'Dict::concat / _erg_dict.Dict.concat: the winner of a duplicated key could not be determined (rust=%s python=%s)' % (rw, pw)):
+        return
+    if rw == pw:
+        chk.ok('C34-dict', 'duplicate-key', sample='both sides: the %s operand wins' % rw)
+    else:
+        chk.bad('C34-dict', 'Dict::merge', 'duplicate-key:%s-vs-%s' % (rw, pw), 'compile-time dict concatenation keeps the %s value of a duplicated key, the runtime class the %s one: '
+                '`merged = {"a": 1, "b": 3}.concat {"a": 7}` is typed with `"a": {1}` while `merged["a"]` is 7 at run time' % (rw, pw), DICT, None)
